@@ -16,6 +16,9 @@ theorem adopt_remote : (adopt s a).remote = s.remote ∨ (adopt s a).remote = a 
   unfold adopt; split <;> simp
 theorem adopt_udp (hu : s.tcp = false) (hp : s.remote.port ≠ 0) : adopt s a = s := by
   unfold adopt; simp [hu, hp]
+/-- with latching enabled the top-of-`receive` adoption is skipped altogether -/
+theorem adopt_on (h : s.latchOn = true) : adopt s a = s := by
+  unfold adopt; simp [h]
 end adopt
 
 section rtcpLearn
@@ -92,6 +95,42 @@ theorem rtpLatch_latched (h : s.rtpLatched = true) : rtpLatch s cur a ssrc seq t
 theorem rtpLatch_off (h : s.latchOn = false) : rtpLatch s cur a ssrc seq ts m = s := by
   unfold rtpLatch; simp [h]
 end rtpLatch
+
+section setExpectedSsrc
+variable (s : St) (v : Nat)
+@[simp] theorem setExpectedSsrc_remote : (setExpectedSsrc s v).remote = s.remote := by unfold setExpectedSsrc; split <;> rfl
+@[simp] theorem setExpectedSsrc_rtcpRemote : (setExpectedSsrc s v).rtcpRemote = s.rtcpRemote := by unfold setExpectedSsrc; split <;> rfl
+@[simp] theorem setExpectedSsrc_latchOn : (setExpectedSsrc s v).latchOn = s.latchOn := by unfold setExpectedSsrc; split <;> rfl
+@[simp] theorem setExpectedSsrc_rtpLatched : (setExpectedSsrc s v).rtpLatched = s.rtpLatched := by unfold setExpectedSsrc; split <;> rfl
+@[simp] theorem setExpectedSsrc_rtcpLatched : (setExpectedSsrc s v).rtcpLatched = s.rtcpLatched := by unfold setExpectedSsrc; split <;> rfl
+@[simp] theorem setExpectedSsrc_maxPackets : (setExpectedSsrc s v).maxPackets = s.maxPackets := by unfold setExpectedSsrc; split <;> rfl
+@[simp] theorem setExpectedSsrc_tcp : (setExpectedSsrc s v).tcp = s.tcp := by unfold setExpectedSsrc; split <;> rfl
+@[simp] theorem setExpectedSsrc_expected : (setExpectedSsrc s v).expected = v := by
+  unfold setExpectedSsrc; split <;> simp_all
+theorem setExpectedSsrc_same (h : s.expected = v) : setExpectedSsrc s v = s := by
+  unfold setExpectedSsrc; simp [h]
+end setExpectedSsrc
+
+section enableLatch
+variable (s : St)
+@[simp] theorem enableLatch_remote : (enableLatch s).remote = s.remote := by
+  unfold enableLatch; split <;> (try split) <;> rfl
+@[simp] theorem enableLatch_rtpLatched : (enableLatch s).rtpLatched = s.rtpLatched := by
+  unfold enableLatch; split <;> (try split) <;> rfl
+@[simp] theorem enableLatch_latchOn : (enableLatch s).latchOn = true := by
+  unfold enableLatch; split <;> (try split) <;> rfl
+@[simp] theorem enableLatch_expected : (enableLatch s).expected = s.expected := by
+  unfold enableLatch; split <;> (try split) <;> rfl
+@[simp] theorem enableLatch_rtcpRemote : (enableLatch s).rtcpRemote = s.rtcpRemote := by
+  unfold enableLatch; split <;> (try split) <;> rfl
+@[simp] theorem enableLatch_rtcpLatched : (enableLatch s).rtcpLatched = s.rtcpLatched := by
+  unfold enableLatch; split <;> (try split) <;> rfl
+end enableLatch
+
+theorem totalMax_eq : totalMax = 255 := by decide
+theorem countMax_eq : countMax = 255 := by decide
+theorem consecMax_eq : consecMax = 255 := by decide
+theorem seqMod_eq : seqMod = 65536 := by decide
 
 end RtcModel.Latch
 
@@ -206,6 +245,57 @@ theorem maxByRule3_ge (cs : List Cand) (c : Cand) (h : maxByRule3 cs = some c) :
         · subst hx; omega
         · exact ihm x hx
 
+/-- rule 3 winner: among the candidates with the same (largest) count it has the lowest `first_seq` -/
+theorem maxByRule3_tie (cs : List Cand) (c : Cand) (h : maxByRule3 cs = some c) :
+    ∀ d ∈ cs, d.packetCount = c.packetCount → c.firstSeq ≤ d.firstSeq := by
+  induction cs generalizing c with
+  | nil => simp
+  | cons d rest ih =>
+    unfold maxByRule3 at h
+    split at h
+    · rename_i hn
+      simp at h; subst h
+      cases rest with
+      | nil => simp
+      | cons e r => exact absurd (maxByRule3_isSome (e :: r) (by simp)) (by simp [hn])
+    · rename_i m hm
+      have ihm := ih m hm
+      have hge := maxByRule3_ge rest m hm
+      split at h <;> simp at h <;> subst h
+      · rename_i hgt
+        simp [rule3Gt] at hgt
+        intro x hx hxe; simp at hx; rcases hx with hx | hx
+        · subst hx; omega
+        · have h1 := hge x hx
+          rcases hgt with hgt | ⟨hgt1, hgt2⟩
+          · omega
+          · have := ihm x hx (by omega); omega
+      · rename_i hgt
+        simp [rule3Gt] at hgt
+        intro x hx hxe; simp at hx; rcases hx with hx | hx
+        · subst hx
+          have := hgt.2 hxe
+          omega
+        · exact ihm x hx hxe
+
+theorem runWinner_some (p : Prob) (c : Cand) (h : runWinner p = some c) :
+    p.total ≥ Generated.probationRule2MinTotal ∧ c ∈ p.cands ∧ c.consecutive ≥ Generated.probationRule2MinConsecutive := by
+  unfold runWinner at h
+  split at h
+  · rename_i ht
+    exact ⟨ht, List.mem_of_find?_eq_some h, by simpa using List.find?_some h⟩
+  · simp at h
+
+theorem runWinner_none (p : Prob) (h : runWinner p = none) :
+    p.total < Generated.probationRule2MinTotal ∨ ∀ c ∈ p.cands, c.consecutive < Generated.probationRule2MinConsecutive := by
+  unfold runWinner at h
+  split at h
+  · right
+    intro c hc
+    have := List.find?_eq_none.mp h c hc
+    simpa using this
+  · left; omega
+
 theorem winner_mem (p : Prob) (w : Addr) (h : winner p = some w) : ∃ c ∈ p.cands, c.addr = w := by
   unfold winner at h
   split at h
@@ -215,13 +305,13 @@ theorem winner_mem (p : Prob) (w : Addr) (h : winner p = some w) : ∃ c ∈ p.c
     simp at this
     exact ⟨mw, this.1, h⟩
   · split at h
-    · simp at h
-      obtain ⟨c, hc, he⟩ := h
-      exact ⟨c, maxByRule3_mem _ _ hc, he⟩
+    · rename_i rw hrw
+      simp at h
+      exact ⟨rw, (runWinner_some p rw hrw).2.1, h⟩
     · split at h
       · simp at h
         obtain ⟨c, hc, he⟩ := h
-        exact ⟨c, List.mem_of_find?_eq_some hc, he⟩
+        exact ⟨c, maxByRule3_mem _ _ hc, he⟩
       · simp at h
 
 /-- at or past the probation limit a non-empty table always yields a winner -/
@@ -230,12 +320,95 @@ theorem winner_isSome_of_limit (p : Prob) (hne : p.cands ≠ []) (hlim : p.total
   unfold winner
   split
   · simp
-  · simp [hlim]
-    have := maxByRule3_isSome p.cands hne
-    cases h : maxByRule3 p.cands <;> simp_all
+  · split
+    · simp
+    · simp [hlim]
+      have := maxByRule3_isSome p.cands hne
+      cases h : maxByRule3 p.cands <;> simp_all
 
 theorem receive_latched_mono (s : St) (a : Addr) (k : Kind) (h : s.rtpLatched = true) :
     (receive s a k).rtpLatched = true := by
   cases k <;> simp [receive, h, rtpLatch_latched]
+
+end RtcModel.Latch
+
+namespace RtcModel.Latch
+
+/-! ### single-packet steps of the latching arm -/
+
+/-- A packet that the latch logic treats as legitimate RTP for the current expectation:
+RTP (not RTCP) of at least the minimum length carrying the expected SSRC, any SSRC when none is known. -/
+def Legit (s : St) : Kind → Prop
+  | .rtp ssrc _ _ _ => s.expected = 0 ∨ ssrc = s.expected
+  | _ => False
+
+instance (s : St) (k : Kind) : Decidable (Legit s k) := by
+  cases k <;> simp [Legit] <;> infer_instance
+
+theorem commit_step (s : St) (a : Addr) (ssrc seq ts : Nat) (m : Bool) (p : Prob) (w : Addr)
+    (hon : s.latchOn = true) (hl : s.rtpLatched = false) (hp : s.prob = some p)
+    (hleg : s.expected = 0 ∨ ssrc = s.expected)
+    (hw : winner { p with total := satInc totalMax p.total, cands := observe p.cands a seq ts m } = some w) :
+    (receive s a (.rtp ssrc seq ts m)).remote = w ∧
+    (receive s a (.rtp ssrc seq ts m)).rtpLatched = true ∧
+    (receive s a (.rtp ssrc seq ts m)).prob = none := by
+  have hm : (moveTo (adopt s a) (adopt s a).remote a).remote = a := moveTo_remote _ _ _ (Or.inl rfl)
+  simp only [receive, rtpLatch, adopt_latchOn, adopt_rtpLatched, adopt_expected, adopt_prob, hon, hl, hp]
+  simp [hleg, hw, commitTo_remote _ _ _ hm]
+
+theorem no_winner_step (s : St) (a : Addr) (ssrc seq ts : Nat) (m : Bool) (p : Prob)
+    (hon : s.latchOn = true) (hl : s.rtpLatched = false) (hp : s.prob = some p)
+    (hleg : s.expected = 0 ∨ ssrc = s.expected)
+    (hw : winner { p with total := satInc totalMax p.total, cands := observe p.cands a seq ts m } = none) :
+    (receive s a (.rtp ssrc seq ts m)).rtpLatched = false ∧
+    (receive s a (.rtp ssrc seq ts m)).remote = a ∧
+    (receive s a (.rtp ssrc seq ts m)).prob =
+      some { p with total := satInc totalMax p.total, cands := observe p.cands a seq ts m } := by
+  have hm : (moveTo (adopt s a) (adopt s a).remote a).remote = a := moveTo_remote _ _ _ (Or.inl rfl)
+  simp only [receive, rtpLatch, adopt_latchOn, adopt_rtpLatched, adopt_expected, adopt_prob, hon, hl, hp]
+  simp [hleg, hw, hl, hm]
+
+theorem immediate_step (s : St) (a : Addr) (ssrc seq ts : Nat) (m : Bool)
+    (hon : s.latchOn = true) (hl : s.rtpLatched = false) (hp : s.prob = none)
+    (hleg : s.expected = 0 ∨ ssrc = s.expected) :
+    (receive s a (.rtp ssrc seq ts m)).rtpLatched = true ∧ (receive s a (.rtp ssrc seq ts m)).remote = a := by
+  have hm : (moveTo (adopt s a) (adopt s a).remote a).remote = a := moveTo_remote _ _ _ (Or.inl rfl)
+  simp [receive, rtpLatch, hon, hl, hp, hleg, hm]
+
+/-- One legitimate packet during probation either commits or advances the counter by one
+(the saturating add does not saturate below the `u8` window limit). -/
+theorem legit_packet_progress (s : St) (a : Addr) (ssrc seq ts : Nat) (m : Bool) (p : Prob)
+    (hon : s.latchOn = true) (hl : s.rtpLatched = false) (hp : s.prob = some p)
+    (hlt : p.total < p.max) (hmax : p.max ≤ 255)
+    (hleg : s.expected = 0 ∨ ssrc = s.expected) :
+    (receive s a (.rtp ssrc seq ts m)).rtpLatched = true ∨
+    ((receive s a (.rtp ssrc seq ts m)).rtpLatched = false ∧ (receive s a (.rtp ssrc seq ts m)).latchOn = true ∧
+      ∃ p', (receive s a (.rtp ssrc seq ts m)).prob = some p' ∧ p'.total = p.total + 1 ∧ p'.max = p.max ∧
+        p'.total < p'.max) := by
+  cases hw : winner { p with total := satInc totalMax p.total, cands := observe p.cands a seq ts m } with
+  | some w => left; exact (commit_step s a ssrc seq ts m p w hon hl hp hleg hw).2.1
+  | none =>
+    right
+    have h := no_winner_step s a ssrc seq ts m p hon hl hp hleg hw
+    have hsat : satInc totalMax p.total = p.total + 1 := by
+      simp [satInc, totalMax_eq]; omega
+    refine ⟨h.1, by simp [receive, hon], _, h.2.2, hsat, rfl, ?_⟩
+    -- no winner although the table is non-empty ⇒ still below the limit
+    have hne := observe_ne_nil p.cands a seq ts m
+    have : ¬ (satInc totalMax p.total ≥ p.max) := by
+      intro hge
+      have := winner_isSome_of_limit
+        { p with total := satInc totalMax p.total, cands := observe p.cands a seq ts m } hne hge
+      simp [hw] at this
+    simp only [hsat] at this ⊢; omega
+
+/-- A packet that is not legitimate RTP leaves the probation state and latch flags alone. -/
+theorem nonlegit_frame (s : St) (a : Addr) (k : Kind) (h : ¬ Legit s k) :
+    (receive s a k).prob = s.prob ∧ (receive s a k).rtpLatched = s.rtpLatched ∧
+    (receive s a k).latchOn = s.latchOn := by
+  cases k <;> simp [receive]
+  rename_i ssrc seq ts m
+  simp [Legit] at h
+  simp [rtpLatch, h]
 
 end RtcModel.Latch
